@@ -134,6 +134,8 @@ class ScriptedDownloader(Downloader):
                 yield DownloadResponse(_stream=None, missing=True)
             elif r.kind == "error":
                 yield DownloadResponse(_stream=None, error="HTTP/500")
+            elif r.kind == "cancel":
+                raise asyncio.CancelledError("scripted cancellation inside the transport")
             else:
                 date = datetime.fromtimestamp(r.date, tz=timezone.utc) if r.date is not None else None
 
